@@ -348,8 +348,8 @@ type templateValues struct {
 
 var (
 	templateValueToken = regexp.MustCompile(`\x00\d+\x00`)
-	// 文档中会被当作图片占位符处理的两种写法（同一行内）
-	templateImageMarker = regexp.MustCompile(`\{\{#image[\t\f\r ]+\w+\}\}|\[IMAGE:\w+\]`)
+	// 值里一行之内的文字（含有非空白字符的一行；只有空白的行保持原样，空行的判断不受影响）
+	templateValueLine = regexp.MustCompile(`[^\n]*\S[^\n]*`)
 )
 
 // hold 记录一个值并返回代表它的记号。NUL 不能出现在文档文本中，从值里去掉，使值本身无法构成记号
@@ -359,7 +359,9 @@ func (tv *templateValues) hold(value string) string {
 }
 
 // expand 把记号还原为值（只扫描一遍，值的内容不会再被解释）。keepImageMarkers 为 true 时，
-// 值里形如图片占位符的片段仍然保持为记号，留给 expandInDocument 还原
+// 只还原值里的换行符（文本按行拆成段落），每一行的文字仍然保持为记号，留给 expandInDocument 还原：
+// 这样图片占位符的处理只会看到模板自身的文字，值的片段与相邻的文字或其他值拼在一起
+// （例如 "{{#" 加上模板里的 "image logo}}"）也不会被当作图片占位符
 func (tv *templateValues) expand(content string, keepImageMarkers bool) string {
 	if !strings.Contains(content, "\x00") {
 		return content
@@ -371,7 +373,7 @@ func (tv *templateValues) expand(content string, keepImageMarkers bool) string {
 		}
 		value := tv.vals[index]
 		if keepImageMarkers {
-			value = templateImageMarker.ReplaceAllStringFunc(value, tv.hold)
+			value = templateValueLine.ReplaceAllStringFunc(value, tv.hold)
 		}
 		return value
 	})
